@@ -395,7 +395,16 @@ func c07Block(t *rapid.T, a *asm, depth int, label string) {
 			child.lit(0x51)
 		}
 		a.pushBytes(child.assemble())
-		a.pushNum(int64(rapid.SampledFrom([]int{0, 0, 0, 1, 5, 20, 100, 300, 1000, 5000}).Draw(t, label+"cplimit")))
+		if rapid.IntRange(0, 7).Draw(t, label+"cphuge") == 0 {
+			// limits at and beyond the signed 64-bit boundary: 2^63-1 is the largest a child can be given, anything above is a bad value
+			exp := rapid.SampledFrom([]uint{63, 63, 64, 64, 65, 200}).Draw(t, label+"cpexp")
+			off := int64(rapid.SampledFrom([]int{-1, 0, 1, -1000, -1000000, 12345}).Draw(t, label+"cpoff"))
+			v := new(big.Int).Lsh(big.NewInt(1), exp)
+			v.Add(v, big.NewInt(off))
+			a.lit(refvm.PushNum(v)...)
+		} else {
+			a.pushNum(int64(rapid.SampledFrom([]int{0, 0, 0, 1, 5, 20, 100, 300, 1000, 5000}).Draw(t, label+"cplimit")))
+		}
 		a.lit(refvm.OpCheckPredicate)
 	case k == 13: // raw bytes
 		a.lit(rapid.SliceOfN(rapid.Byte(), 1, 6).Draw(t, label+"raw")...)
